@@ -200,7 +200,7 @@ CONFIG = {
         "SHA-256 collision freedom on the universe: a digest id stands for one byte string (the harness numbers digests of real bytes); verification (content.ReadAll / ioutil.CopyBuffer + VerifyReader) is modelled as 'hash id and length equal the descriptor's' (C05 owns the verifier)",
         "encoding/json + content.Successors decoding are external: a blob carries the successor keys the generator's ground truth assigns to its bytes; manifests are well-formed (a Push whose bytes do not decode under a manifest media type stores the blob and then fails in graph.Index: outside the quantifier)",
         "OCI theorems C06_refines_oci / C06_failed_noop_oci assume a universe function U (digest -> media type, size) with every descriptor of the history canonical: Tag/Delete/Push with a descriptor whose media type or size differs from the stored one are caller inconsistencies (DESIGN section 6); satisfiable: Example C06_ex_canon",
-        "OCI Tag of a descriptor with a manifest media type re-runs graph.Index on it (82c1a20) and fails when the bytes do not decode; on well-formed manifests this only re-writes the same graph entry and is not modelled (descriptors with a manifest media type on non-manifest bytes are outside the quantifier and not generated); Tag with another node's digest string or a non-UTF-8 reference is refused by the code and not generated",
+        "OCI Tag: refusal of another content's digest string as reference and the graph.Index step on manifest descriptors are modelled (sequential and as an atomic step of the interleaving model); a descriptor with a manifest media type on bytes that do not decode is outside the quantifier (well-formed manifests) and not generated; non-UTF-8 references are not generated",
         "OCI: AutoGC off, GC never called (C09 owns F1-F4); index.json / saveIndex persistence not modelled (C08, C10); invalid digest strings are not generated (blobPath -> ErrInvalidDigest)",
         "file store: a path is identified with the clean relative name it came from (aliasing names, traversal, symlinks: C11); pushDir/unpack, Add, restoreDuplicates with titled successors, Close, fallback size limit, ForceCAS/SkipUnpack/PreservePermissions are not modelled; annotation-set ids are numbered so that id/8 is the title",
         "concurrency theorem: sync.Map Load/LoadOrStore, the resolver RWMutex section and the graph lock section are the atomic steps (Go memory model / scheduler: modelled, not verified); proved for the memory store and (content map, all Resolve answers, Predecessors; Delete exclusive; collision-free universe B) for the OCI store; for the file store the per-name lock section of a named push is one atomic step (the window between digestToPath.Store and exists := true is not modelled) and the graph is compared by the harness only",
